@@ -131,6 +131,7 @@ type xProp struct {
 	eval  func(xCase) []pbt.Violation
 	cfg   func(rt *rapid.T, avoid map[string]bool) (dsl.GenCfg, int, dsl.ValCfg, bool)
 	tests bool
+	viaCLI bool
 	nontrivial func(k xCase) bool
 	assume []string
 }
@@ -177,6 +178,10 @@ func runXPropWith(t *testing.T, xp xProp, post func(rt *rapid.T, k *xCase)) {
 		}
 		k.Langs = ok
 		k.Tests = xp.tests
+		if xp.viaCLI && rapid.IntRange(0, 3).Draw(rt, "via_cli") == 0 {
+			k.ViaCLI = true
+			c.Class("files-written-by-cli-into-stale-directories")
+		}
 		if post != nil {
 			post(rt, &k)
 		}
@@ -202,6 +207,9 @@ func defaultXCfg(rt *rapid.T, avoid map[string]bool) (dsl.GenCfg, int, dsl.ValCf
 	if rapid.IntRange(0, 2).Draw(rt, "kitchen") == 0 {
 		cfg.KitchenSink = true
 	}
+	// several fields typed by one fixed-string MetaData entry, one of them padded: attributes
+	// must stay with the field they are written on
+	cfg.MetaShare = rapid.IntRange(0, 4).Draw(rt, "metashare") == 0
 	return cfg, 4, dsl.ValCfg{MaxList: 3, LongList: pbt.Thorough()}, false
 }
 
